@@ -309,6 +309,31 @@ fn main() {
     }
     r1.par_iter().for_each(|r| run_rule(&rep, lang, r, &trees1, &stats));
     r2.par_iter().for_each(|r| run_rule(&rep, lang, r, &trees2, &stats));
+    // `field` x rule-valued `stopBy` family over a WIDER kind list (the kinds that occur as field
+    // children are internal nodes such as `arguments`, absent from the general atom list): the
+    // field child may itself be the stop node, an inner match, both or neither
+    let extra: &[&str] = match lang {
+      "javascript" | "typescript" | "tsx" => &["arguments", "call_expression", "parenthesized_expression", "binary_expression", "statement_block"],
+      "python" => &["argument_list", "call", "parenthesized_expression", "binary_operator", "block"],
+      "rust" => &["arguments", "call_expression", "parenthesized_expression", "binary_expression", "block"],
+      "c" => &["argument_list", "call_expression", "parenthesized_expression", "binary_expression", "compound_statement"],
+      _ => &[],
+    };
+    let mut ks: Vec<&str> = la.kinds.iter().cloned().chain(extra.iter().cloned()).collect();
+    ks.sort();
+    ks.dedup();
+    let mut field_stop = vec![];
+    for f in la.fields {
+      for ki in &ks {
+        for kst in &ks {
+          let rel = |rule: R| Rel { rule, stop: Stop::Rule(Box::new(R::Kind(kst.to_string()))), field: Some(f.to_string()) };
+          field_stop.push(R::Has(Box::new(rel(R::Kind(ki.to_string())))));
+          field_stop.push(R::Inside(Box::new(rel(R::Kind(ki.to_string())))));
+        }
+      }
+    }
+    rules_total += field_stop.len();
+    field_stop.par_iter().for_each(|r| run_rule(&rep, lang, r, &trees2, &stats));
     // `range` family: every range over small coordinates, alone and under each kind of operator,
     // on multi-line layouts of every token string
     let (rtrees, _) = build_trees_from(lang, multiline_sources(lang, if args.thorough() { 4 } else { 3 }), la.fields);
@@ -328,12 +353,12 @@ fn main() {
     per_lang.push(json!({"lang": lang, "rules_depth_le1": r1.len(), "rules_depth2": r2.len(),
       "L_depth_le1": l1, "trees_depth_le1": trees1.len(), "sources_generated_depth_le1": n1,
       "L_depth2": l2, "trees_depth2": trees2.len(), "sources_generated_depth2": n2,
-      "range_rules": ranges.len(), "range_rules_wrapped": wrapped.len(), "range_trees_multiline": rtrees.len(), "range_trees_multiline_wrapped": rtrees_small.len()}));
+      "field_x_stop_rule_rules": field_stop.len(), "range_rules": ranges.len(), "range_rules_wrapped": wrapped.len(), "range_trees_multiline": rtrees.len(), "range_trees_multiline_wrapped": rtrees_small.len()}));
   }
   let cov = json!({
     "evaluations": stats.evals.load(Ordering::Relaxed),
     "distinct_nontrivial": stats.nontrivial_rules.load(Ordering::Relaxed),
-    "rule": "every rule tree of depth <= 2 over per-language atoms (rulegen.rs: all/any/not, inside/has/precedes/follows x stopBy neighbor|end|rule x field, nthChild An+B/reverse/ofRule, multi-key objects; plus every `range` with lines 0..3 x character columns 0..5, alone and under obj/not/inside/has, on every space-or-newline layout of every token string) loaded through the real YAML deserialiser, against every node of every tree parsed from token strings <= L without zero-width nodes; an evaluation is one (rule, node) pair; distinct_nontrivial = number of distinct rules that matched at least one node and rejected at least one node",
+    "rule": "every rule tree of depth <= 2 over per-language atoms (rulegen.rs: all/any/not, inside/has/precedes/follows x stopBy neighbor|end|rule x field, nthChild An+B/reverse/ofRule, multi-key objects; plus has/inside with every (field, inner kind, stop kind) over a kind list widened by the kinds of field children; plus every `range` with lines 0..3 x character columns 0..5, alone and under obj/not/inside/has, on every space-or-newline layout of every token string) loaded through the real YAML deserialiser, against every node of every tree parsed from token strings <= L without zero-width nodes; an evaluation is one (rule, node) pair; distinct_nontrivial = number of distinct rules that matched at least one node and rejected at least one node",
     "samples": samples.take(),
     "exhaustive": true,
     "rules": rules_total,
